@@ -166,6 +166,11 @@ def make_machine(H: Harness) -> Any:
             conf = {s: {"priority": data.draw(st.integers(-2, 3)), "is_sequential": data.draw(st.booleans())} for s in some}
             self.do({"op": "config", "inst": self._inst(data), "conf": conf, "mc": data.draw(st.sampled_from([None, 1, 2, 4]))})
 
+        @rule(data=st.data())
+        def draw(self, data: Any) -> None:
+            # drawing the graph is a read-only operation
+            self.do({"op": "draw", "inst": self._inst(data), "include_args": data.draw(st.booleans())})
+
         @precondition(lambda self: self.I is not None and len(self.I.insts) < 3)
         @rule(data=st.data())
         def deepcopy(self, data: Any) -> None:
